@@ -625,7 +625,9 @@ func (fc *FuncCtx) strConcat(a, b Term, t types.Type) Term {
 		return Term{S: fc.reg().strConst(s), T: t, Const: &s}
 	}
 	fc.w.declareUninterp(&Uninterp{Name: "strcat", Params: []ParamDecl{{"a", types.Typ[types.String]}, {"b", types.Typ[types.String]}}, Result: types.Typ[types.String]})
-	return Term{S: "(u_strcat " + a.S + " " + b.S + ")", T: t}
+	r := Term{S: "(u_strcat " + a.S + " " + b.S + ")", T: t}
+	fc.facts = append(fc.facts, "(= (js_strsafe "+r.S+") (and (js_strsafe "+a.S+") (js_strsafe "+b.S+")))")
+	return r
 }
 
 func (fc *FuncCtx) evalIndex(st *State, x *ast.IndexExpr, commaOk bool) []Term {
